@@ -79,7 +79,8 @@ def noisy(ctx, rng, rows, reader, delim, marker):
     out, clean = [], []
 
     def noise():
-        kind = rng.choice(("blank", "whitespace", "comment", "indented-comment", "short-row", "extra-columns"))
+        kind = rng.choice(("blank", "whitespace", "comment", "indented-comment", "short-row", "extra-columns",
+                           "comment-with-marker-inside"))
         ctx.cell("noise:" + kind)
         if kind == "blank":
             return ""
@@ -87,6 +88,9 @@ def noisy(ctx, rng, rows, reader, delim, marker):
             return rng.choice(("   ", "\t", " \t "))
         if kind == "comment":
             return marker + " a comment 1 2 3"
+        if kind == "comment-with-marker-inside":
+            # everything after the FIRST marker is comment, also further markers and things that look like rows
+            return marker + marker + " section" + d + "2" + d + "3" + d + "4 " + marker + " generated"
         if kind == "indented-comment":
             return "   " + marker + "1" + d + "2" + d + "3"
         if kind == "short-row":
@@ -108,6 +112,8 @@ def noisy(ctx, rng, rows, reader, delim, marker):
             ctx.cell("noise:extra-columns")
         if rng.random() < 0.3:
             deco = deco + " " + marker + " trailing" + d + "1"
+            if rng.random() < 0.4:
+                deco = deco + " " + marker + " again" + d + "5" + d + "6" + d + "7"
             ctx.cell("noise:trailing-comment")
         if rng.random() < 0.3:
             deco = "  " + deco + "  "
